@@ -204,6 +204,18 @@ def judge(case):
             ok = False
         if not ok:
             fails.append(Failure("C05.line-roundtrip", f"line-value-differs/{kind}", f"{str(cl)!r} -> {text!r} (supplied {v!r})"[:400]))
+        # history: editing the parameters one split handed out does not change what the next split (of this line, or of
+        # another line with the same parameter section) returns
+        before = plain(p2)
+        _scribble(p2)
+        try:
+            for nm3, wire3 in ((name, wire), ("X-OTHER", Contentline.from_parts("X-OTHER", P, mk_value(kind, v)).to_ical())):
+                n3, p3, _ = Contentline.from_ical(wire3).parts()
+                if plain(p3) != before or n3 != nm3:
+                    fails.append(Failure("C05.line-structure", "line-split-sees-edits-to-an-earlier-result", f"{wire3!r} -> {plain(p3)!r}, first split gave {before!r}"[:400]))
+                    break
+        except Exception as e:  # noqa: BLE001
+            fails.append(Failure("C05.line-structure", "second-split-raises/" + exc_signature(e), f"{str(cl)!r}: {e!r}"[:300]))
         return fails
     # ---------------------------------------------------------------- tree level
     cal = Calendar()
@@ -279,7 +291,23 @@ def judge(case):
         fails.append(Failure("C05.tree-roundtrip", "tree-params-differ", f"{gp!r} exp {exp_pm!r} raw={raw!r}"[:400]))
     if not value_ok(kind, v, got_obj=got):
         fails.append(Failure("C05.tree-roundtrip", f"tree-value-differs/{kind}", f"got={got!r} supplied={v!r} raw={raw!r}"[:400]))
+    if hasattr(got, "params"):
+        _scribble(got.params)
+        try:
+            got3 = Calendar.from_ical(raw).walk("VEVENT")[0].get(name)
+            gp3 = plain(getattr(got3, "params", {}))
+            if gp3 != gp:
+                fails.append(Failure("C05.tree-structure", "tree-parse-sees-edits-to-an-earlier-result", f"{gp3!r}, first parse gave {gp!r} raw={raw!r}"[:400]))
+        except Exception as e:  # noqa: BLE001
+            fails.append(Failure("C05.tree-structure", "second-parse-raises/" + exc_signature(e), f"raw={raw!r}: {e!r}"[:300]))
     return fails
+
+
+def _scribble(params):
+    for k in list(params.keys()):
+        if isinstance(params[k], list):
+            params[k].append("scribble")
+    params["X-SCRIBBLE"] = "1"
 
 
 def plain_props(comp):
